@@ -14,7 +14,7 @@ PROP = 'C12'
 LEVEL = 'exploration'
 RULE = ('all 8^k (k=1..4) operand tuples for NOT/AND/OR/XOR in array (mv_*, _mv_*) and bit-parallel (bp8v_*) form, all 4^k '
         'for bp4v_*; every tuple additionally placed in each lane 0..8 of a 9-lane array beside a second tuple; shapes '
-        '(n,),(s,n),(b,s,n) and broadcasting pairs; out= omitted/fresh/garbage/aliased/strided view/transposed view, bit-parallel out arrays pre-filled 00/FF/5A/A5; 4-valued operators also on three-plane operands (third plane 00/FF/A5/5A) and chained behind every other operator; distinct_nontrivial = distinct '
+        '(n,),(s,n),(b,s,n) and broadcasting pairs; out= omitted/fresh/garbage/aliased/strided view/transposed view/sibling view of the buffer of the operand, bit-parallel out arrays pre-filled 00/FF/5A/A5; 4-valued operators also on three-plane operands (third plane 00/FF/A5/5A) and chained behind every other operator; distinct_nontrivial = distinct '
         '(operator, form, operand tuple, result) signatures')
 ASSUMPTIONS = ['reference algebra in mc/ref.py written from the module documentation',
                'results are compared with the reference after identifying X and - (both "unknown"); array vs. bit-parallel forms are compared exactly',
@@ -318,6 +318,17 @@ def _out(lg, res, op):
         if not np.all(ref.same_mod_unknown(bp_to_codes(bp, len(vals)), exp)):
             res.violation(f'C12/out/{name}/aliased', {'task': list(task)}, f'{name}(x, x) in place gives {bp_to_codes(bp, len(vals)).tolist()}')
         res.evals += 1
+        # out and operand as two disjoint, interleaved views of one buffer (neither in place nor separate arrays)
+        src = codes_to_bp(vals, planes)
+        for prefill in (0x00, 0xFF):
+            buf = np.full((src.shape[0], 2) + src.shape[1:], prefill, dtype=np.uint8) if src.ndim == 2 else None
+            if buf is None: break
+            buf[:, 0] = src
+            getattr(lg, name)(buf[:, 1], buf[:, 0])
+            if not np.all(ref.same_mod_unknown(bp_to_codes(np.ascontiguousarray(buf[:, 1]), len(vals)), exp)) or not np.array_equal(buf[:, 0], src):
+                res.violation(f'C12/out/{name}/sibling-views/{prefill}', {'task': list(task)}, f'{name}(out=buf[:, 1], buf[:, 0]) gives {bp_to_codes(np.ascontiguousarray(buf[:, 1]), len(vals)).tolist()} expected {exp.tolist()}')
+            res.evals += 1
+            res.count('sibling_view_calls')
 
 
 def finish(agg, tier):
